@@ -47,10 +47,44 @@ func (s *Snap) depsOf(id int) []DepRow {
 	return out
 }
 
-// Tol tracks the rounding allowance of the total-principal monitor: one unit per
-// rounding that can have happened (one per collateral type and one per live cdp
-// in a block, one per message).
-type Tol struct{ N int64 }
+// Tol is the history variable of the total-principal bound proved in coq/Proofs/CdpTotal.v
+// (total_principal_bound, ghostN): per collateral type a count N of roundings.  It moves only at an
+// operation that changes the type's global interest factor (a block in which AccumulateInterest accrued),
+// and then by (stored cdps of the type) + 1 + (4*stored debt + N)/10^18, all read before the operation.
+// The bound checked after every operation is |total principal - sum of synchronised debt| * 10^18 <= factor * N.
+type Tol struct{ N []*big.Int }
+
+func gfacOf(s *Snap, t int) *big.Int {
+	if s.Ifac[t].Sign() > 0 {
+		return s.Ifac[t]
+	}
+	return Pow10(18)
+}
+
+// Step advances the count over one operation (prev = state before, after = state after).
+func (tol *Tol) Step(prev, after *Snap) {
+	for len(tol.N) < len(prev.TPrin) {
+		tol.N = append(tol.N, new(big.Int))
+	}
+	for t := range prev.TPrin {
+		if gfacOf(prev, t).Cmp(gfacOf(after, t)) == 0 {
+			continue
+		}
+		live, sdebt := int64(0), new(big.Int)
+		for _, c := range prev.Cdps {
+			if c.T == t {
+				live++
+				sdebt.Add(sdebt, c.Prin)
+				sdebt.Add(sdebt, c.Fees)
+			}
+		}
+		extra := new(big.Int).Mul(sdebt, big.NewInt(4))
+		extra.Add(extra, tol.N[t])
+		extra.Div(extra, Pow10(18))
+		tol.N[t].Add(tol.N[t], big.NewInt(live+1))
+		tol.N[t].Add(tol.N[t], extra)
+	}
+}
 
 // InvariantsC04: custody, per-cdp collateral, both indexes, debt accounting.
 func (w *World) InvariantsC04(s *Snap, tol *Tol) *Finding {
@@ -149,7 +183,8 @@ func (w *World) InvariantsC04(s *Snap, tol *Tol) *Finding {
 	if issued.Cmp(debtHeld) > 0 {
 		return &Finding{"stable-issued-le-debt", "stable-exceeds-debt", fmt.Sprintf("issued %s > debt coin %s", issued, debtHeld)}
 	}
-	// (6) total principal = sum of (synchronised) cdp debt up to interest rounding
+	// (6) total principal = sum of (synchronised) cdp debt up to interest rounding:
+	// |total - sum| * 10^18 <= global factor * N  (the bound of C04_total_principal_all_histories)
 	for t := range cfg.Types {
 		sum := new(big.Int)
 		for _, c := range s.Cdps {
@@ -157,12 +192,15 @@ func (w *World) InvariantsC04(s *Snap, tol *Tol) *Finding {
 				sum.Add(sum, syncedDebt(c, gfOf(s, t)))
 			}
 		}
+		n := new(big.Int)
+		if t < len(tol.N) {
+			n = tol.N[t]
+		}
 		diff := new(big.Int).Sub(s.TPrin[t], sum)
-		// relative part: the interest factors carry 18 decimals, each multiplication loses at most one ulp
-		rel := new(big.Int).Div(new(big.Int).Mul(sum, big.NewInt(tol.N+4)), Pow10(17))
-		allow := new(big.Int).Add(big.NewInt(tol.N+2), rel)
-		if diff.CmpAbs(allow) > 0 {
-			return &Finding{"total-principal-tracks-debt", "total-principal-drift", fmt.Sprintf("type %d: total principal %s, sum of synchronised debt %s, allowance %s", t, s.TPrin[t], sum, allow)}
+		lhs := new(big.Int).Mul(new(big.Int).Abs(diff), Pow10(18))
+		rhs := new(big.Int).Mul(gfacOf(s, t), n)
+		if lhs.Cmp(rhs) > 0 {
+			return &Finding{"total-principal-tracks-debt", "total-principal-drift", fmt.Sprintf("type %d: total principal %s, sum of synchronised debt %s, interest factor %s, rounding count %s", t, s.TPrin[t], sum, gfacOf(s, t), n)}
 		}
 	}
 	return nil
